@@ -37,6 +37,14 @@ def handle : Handler
       let (fr, c', raised) := chanClose { connClosed := cc = "1", state := st, tags := ts, inbound := 1 } code text (fail = "1") e
       some s!"{if fr.isEmpty then "-" else " ".intercalate (fr.map showSent)} state={c'.state} tags={c'.tags.length} inbound={c'.inbound} raised={raised}"
     | _, _, _ => some "bad-op"
+  | ["c11.connerr", what, st, sock] =>
+    match st.toNat? with
+    | some stn =>
+      let c : CE := { state := stn, socket := sock = "1" }
+      let r := if what = "close" then closeE Gen.Close.checkSetsClosedBeforeClose 100 c
+               else closeE Gen.Close.checkSetsClosedBeforeClose 100 (checkE Gen.Close.checkSetsClosedBeforeClose 100 c)
+      some s!"sent={r.sent} state={r.state} overflow={r.overflow}"
+    | none => some "bad-op"
   | ["c11.conn", acts] =>
     match (if acts = "-" then some [] else (acts.splitOn ",").mapM parseAct) with
     | some as => some (runActs {} as 0)
